@@ -32,7 +32,7 @@ type Case struct {
 var p2names = []string{"a.dat", "sub/b.bin"}
 
 func p2data(i int) []byte {
-	n := []int{10, 7}[i]
+	n := []int{20, 9}[i]
 	b := make([]byte, n)
 	for k := range b {
 		b[k] = byte(37*k + 11 + 101*i)
@@ -48,7 +48,7 @@ type decl struct {
 
 // BuildPAR2 returns the files of the mutated set (relative name -> bytes), the declared slice size and the declarations.
 func BuildPAR2(muts []Mut) (map[string][]byte, uint64, []decl) {
-	const S = 4
+	const S = 8
 	sliceSize := uint64(S)
 	type fsp struct {
 		f      par2ref.SetFile
